@@ -49,6 +49,10 @@ def Step.toEStep : Step → Option EStep
   | .debugSample _ => some (.map (fun x => x))
   | .customOp n => some (.map (customF n))
   | .mapSideMap => some (.map sideMapF)
+  | .tryMapP p => some (.map (tryPF p))
+  | .resMap f => some (.map (resMapF f))
+  | .resFilter p => some (.filter (resFilterF p))
+  | .mapSideMapP pairs => some (.map (sideMapPF pairs))
   | _ => none
 
 def toESteps : List Step → Option (List EStep)
